@@ -27,6 +27,7 @@ type draw struct {
 
 type witness struct {
 	Harness string `json:"harness"`
+	Tier    string `json:"tier"`
 	Draws   []draw `json:"draws"`
 }
 
@@ -296,15 +297,17 @@ func RunReplay(name string, f func()) (outcome string) {
 	return
 }
 
-// Bound selects a harness bound by tier (quick, thorough). Natively the larger bound is used so
-// that witnesses from either tier replay.
+// Bound selects a harness bound by tier (quick, thorough). Natively the tier recorded in the
+// witness is used, so that a replay takes the same branches as the engine did.
 func Bound(quick, thorough int) int {
-	if thorough > quick {
+	if Thorough() {
 		return thorough
 	}
 	return quick
 }
 
-// Thorough reports whether the thorough tier is running (natively: true, so every branch a
-// witness may come from is compiled in and reachable).
-func Thorough() bool { return true }
+// Thorough reports whether the thorough tier is running (natively: the tier of the witness).
+func Thorough() bool {
+	load()
+	return w.Tier == "thorough"
+}
